@@ -1,6 +1,9 @@
 (* C07 -- resolution never guesses between candidates; id. follows only its
    predecessor.  Statements only.  p = the citations before c. *)
-From EV Require Import Base.Str Base.PyVal Model.Tokenize Model.Resolve Proofs.ResolveSpec Proofs.ResolveProofs.
+From EV Require Import Base.Str Base.PyVal Regex.Syntax Regex.Decl Model.Tokenize Model.Resolve Proofs.ResolveSpec Proofs.ResolveProofs
+  Model.StripPunct Proofs.StripPunctProofs Gen.Unicode Gen.StripPunct.
+From Coq Require Import List.
+Import ListNotations.
 
 (* short form: only a previously cited case with the same corrected reporter and
    volume, and only if unique, or unique among those whose party names contain
@@ -45,3 +48,25 @@ Theorem C07_id_first : forall D mx c q r, oids_ok (c :: q) ->
   resolve D mx (c :: q) = Ok r -> c_cls c = IdC -> forall k, ~ member r k c.
 Proof. exact resolve_id_none. Qed.
 Print Assumptions C07_id_first.
+
+(* strip_punct (eyecite/utils.py), the normalisation applied to the antecedent before it is compared with
+   party names: modelled as the live chain of re.sub steps + str.strip() (Model/StripPunct.v, steps
+   regenerated in Gen/StripPunct.v).  For EVERY text and EVERY step list the result has no white space at
+   either edge, and a step whose pattern has no match leaves the text unchanged. *)
+Theorem C07_strip_punct_edges : forall U steps s,
+  (forall c t, strip_punct U steps s = c :: t -> is_space U c = false) /\
+  (forall t c, strip_punct U steps s = t ++ [c] -> is_space U c = false).
+Proof. exact strip_punct_edges. Qed.
+Print Assumptions C07_strip_punct_edges.
+
+Theorem C07_strip_punct_step_no_match : forall U r g s,
+  (forall i j, ~ Regex.Decl.M U false s r i j) -> re_sub U r g s = s.
+Proof. exact re_sub_no_match. Qed.
+Print Assumptions C07_strip_punct_step_no_match.
+
+(* non-vacuity: the live chain on a concrete antecedent *)
+Example C07_strip_punct_example :
+  strip_punct Gen.Unicode.U Gen.StripPunct.strip_punct_steps
+    [34;79;39;66;114;105;101;110;44;32;73;110;99;46;41;32]%N   (* double quote, O'Brien, Inc.) and a blank *)
+  = [79;66;114;105;101;110;32;73;110;99]%N.                       (* OBrien Inc *)
+Proof. vm_compute. reflexivity. Qed.
